@@ -93,6 +93,90 @@ pub struct OddTag {
     n: i32,
 }
 
+/// A type whose whole body is one delegated field (`@BodyOf 5`) ...
+#[derive(Form, Debug, PartialEq, Clone)]
+pub struct BodyOf<T> {
+    #[form(body)]
+    b: T,
+}
+
+/// ... standing in attribute position, so that the attribute printer itself is delegated to and
+/// writes a primitive (number, text, blob) as the rest of an attribute body: `@InHeader(@BodyOf 5)`.
+#[derive(Form, Debug, PartialEq, Clone)]
+pub struct InHeader<T> {
+    #[form(header_body)]
+    hb: T,
+    x: i32,
+}
+
+/// The same in named attributes, one per primitive kind, next to attributes that hold the
+/// primitive directly.
+#[derive(Form, Debug, PartialEq, Clone)]
+pub struct AttrBodies {
+    #[form(attr)]
+    d_i32: BodyOf<i32>,
+    #[form(attr)]
+    d_i64: BodyOf<i64>,
+    #[form(attr)]
+    d_u32: BodyOf<u32>,
+    #[form(attr)]
+    d_u64: BodyOf<u64>,
+    #[form(attr)]
+    d_f64: BodyOf<f64>,
+    #[form(attr)]
+    d_bool: BodyOf<bool>,
+    #[form(attr)]
+    d_big: BodyOf<BigInt>,
+    #[form(attr)]
+    d_ubig: BodyOf<BigUint>,
+    #[form(attr)]
+    d_text: BodyOf<String>,
+    #[form(attr)]
+    d_blob: BodyOf<Blob>,
+    #[form(attr)]
+    p_blob: Blob,
+    #[form(attr)]
+    p_big: BigInt,
+    #[form(attr)]
+    p_f64: f64,
+    last: u64,
+}
+
+/// Delegated primitive bodies as slot values (the structure printer writes the primitive after an
+/// attribute: `b:@BodyOf 5`).
+#[derive(Form, Debug, PartialEq, Clone)]
+pub struct BodyItems {
+    i: BodyOf<i32>,
+    l: BodyOf<i64>,
+    u: BodyOf<u32>,
+    ul: BodyOf<u64>,
+    f: BodyOf<f64>,
+    p: BodyOf<bool>,
+    big: BodyOf<BigInt>,
+    ubig: BodyOf<BigUint>,
+    t: BodyOf<String>,
+    data: BodyOf<Blob>,
+}
+
+fn g_attr_bodies(r: &mut Rng) -> AttrBodies {
+    AttrBodies {
+        d_i32: BodyOf { b: g_i32(r) },
+        d_i64: BodyOf { b: g_i64(r) },
+        d_u32: BodyOf { b: g_u32(r) },
+        d_u64: BodyOf { b: g_u64(r) },
+        d_f64: BodyOf { b: gen_finite_float(r) },
+        d_bool: BodyOf { b: r.bool() },
+        d_big: BodyOf { b: gen_int(r) },
+        d_ubig: BodyOf { b: gen_int(r).magnitude().clone() },
+        d_text: BodyOf { b: gen_string(r) },
+        d_blob: BodyOf { b: Blob::from_vec(gen_blob(r)) },
+        p_blob: Blob::from_vec(gen_blob(r)),
+        p_big: gen_int(r),
+        p_f64: gen_finite_float(r),
+        last: g_u64(r),
+    }
+}
+
 fn g_i32(r: &mut Rng) -> i32 {
     match r.below(4) {
         0 => *r.pick(&[0, 1, -1, i32::MAX, i32::MIN]),
@@ -248,5 +332,23 @@ pub fn battery() -> Vec<Box<dyn Probe>> {
             big: gen_int(r),
         }),
         probe::<OddTag, _>("derive:OddTag", |r| OddTag { n: g_i32(r) }),
+        // (added for the attribute printer's delegated arms)
+        probe::<AttrBodies, _>("derive:AttrBodies", g_attr_bodies),
+        probe::<BodyItems, _>("derive:BodyItems", |r| BodyItems {
+            i: BodyOf { b: g_i32(r) },
+            l: BodyOf { b: g_i64(r) },
+            u: BodyOf { b: g_u32(r) },
+            ul: BodyOf { b: g_u64(r) },
+            f: BodyOf { b: gen_finite_float(r) },
+            p: BodyOf { b: r.bool() },
+            big: BodyOf { b: gen_int(r) },
+            ubig: BodyOf { b: gen_int(r).magnitude().clone() },
+            t: BodyOf { b: gen_string(r) },
+            data: BodyOf { b: Blob::from_vec(gen_blob(r)) },
+        }),
+        probe::<InHeader<BodyOf<Blob>>, _>("derive:InHeader<BodyOf<Blob>>", |r| InHeader { hb: BodyOf { b: Blob::from_vec(gen_blob(r)) }, x: g_i32(r) }),
+        probe::<InHeader<BodyOf<f64>>, _>("derive:InHeader<BodyOf<f64>>", |r| InHeader { hb: BodyOf { b: gen_finite_float(r) }, x: g_i32(r) }),
+        probe::<InHeader<BodyOf<BigInt>>, _>("derive:InHeader<BodyOf<BigInt>>", |r| InHeader { hb: BodyOf { b: gen_int(r) }, x: g_i32(r) }),
+        probe::<InHeader<BodyOf<String>>, _>("derive:InHeader<BodyOf<String>>", |r| InHeader { hb: BodyOf { b: gen_string(r) }, x: g_i32(r) }),
     ]
 }
